@@ -58,7 +58,7 @@ def group(tag, gid, nostr_id=None):
     return Agg('struct', 'mdk_storage_traits::groups::types::Group', None, [f[n] for n in GROUP_FIELDS], list(GROUP_FIELDS))
 
 
-def storage(st, caches):
+def storage(st, caches, limits=None):
     """caches: {inner field name: MapV}; everything else is an empty map / opaque MLS store"""
     inner = []
     for n in INNER_FIELDS:
@@ -68,7 +68,11 @@ def storage(st, caches):
             inner.append(Opaque(n, n))
         else:
             inner.append(MapV([], 'LruCache'))
-    limits = Agg('struct', 'ValidationLimits', None, [z3.BitVecVal(x, 64) for x in (1000, 100, 10000, 256, 4096, 100, 100, 100, 512)])
+    LIM = ['cache_size', 'max_relays_per_group', 'max_messages_per_group', 'max_group_name_length', 'max_group_description_length', 'max_admins_per_group', 'max_relays_per_welcome',
+           'max_admins_per_welcome', 'max_relay_url_length']
+    lv = dict(zip(LIM, (z3.BitVecVal(x, 64) for x in (1000, 100, 10000, 256, 4096, 100, 100, 100, 512))))
+    lv.update(limits or {})
+    limits = Agg('struct', 'ValidationLimits', None, [lv[k] for k in LIM], list(LIM))
     s = Agg('struct', 'MdkMemoryStorage', None, [limits, Agg('struct', 'RwLock', None, [Agg('struct', 'MdkMemoryStorageInner', None, inner, list(INNER_FIELDS))]),
                                                 Agg('struct', 'RwLock', None, [MapV([], 'HashMap')])])
     return Ref(st.temp(s), ())
